@@ -31,9 +31,9 @@ func refusesClosed(f *File, fd *ast.FuncDecl, needle string) bool {
 func genC25(o *Out) {
 	f := o.pinFile("storage/leveldb/prefix.go", "NewPrefixKey", "NewPrefixStorage", "PrefixStorage.Close", "PrefixStorage.Remove",
 		"PrefixStorage.Get", "PrefixStorage.Exists", "PrefixStorage.Iter", "PrefixStorage.Put", "PrefixStorage.Delete",
-		"PrefixStorage.NewBatch", "PrefixStorage.Batch", "PrefixStorage.key", "PrefixStorage.origkey",
+		"PrefixStorage.NewBatch", "PrefixStorage.Batch", "PrefixStorage.BatchFunc", "PrefixStorage.key", "PrefixStorage.origkey",
 		"PrefixStorageBatch.Put", "PrefixStorageBatch.Delete", "RemoveByPrefix")
-	o.pinFile("storage/leveldb/db.go", "Storage.Get", "Storage.Exists", "Storage.Iter", "Storage.Put", "Storage.Delete", "Storage.Batch", "BatchRemove")
+	o.pinFile("storage/leveldb/db.go", "Storage.Get", "Storage.Exists", "Storage.Iter", "Storage.Put", "Storage.Delete", "Storage.Batch", "BatchRemove", "Storage.BatchFunc", "Storage.BatchFuncWithNewBatch", "Storage.batchAddFunc", "Storage.batchDoneFunc")
 	if f == nil {
 		return
 	}
